@@ -57,3 +57,11 @@ META["C02"] = dict(
     note="Trusts the recording datastore/transport/network doubles; terminal routes are built by the harness through public API and callbacks.",
     technique="runtime monitoring: before/after differential oracle (accessors + stored bytes + call logs) over an enumerated stimulus product",
 )
+
+META["C14"] = dict(
+    text=("Held on K PRNG (configuration, failure pattern, timed script) triples executed against the real monitor on a virtual clock, with exact deadline checks "
+          "(no wall-clock tolerance) and interval-overlap detection on the recording monitor API. Sampled schedules, not all."),
+    design_ref="DESIGN.md §2 C14",
+    note="Trusts testing/synctest's virtual clock and the recording monitor-API double; timings are decided on virtual time only.",
+    technique="runtime monitoring on a virtual clock: interval-overlap, bounded-count, exactly-once and deadline oracles over the recorded monitor API call log",
+)
